@@ -284,6 +284,9 @@ def check(run, views, tier):
                         node = c[1][3] if len(c[1]) > 3 else {}
                         is_i32 = (node.get("gargs") or [None])[0] == "i32" or "i32" in str(node.get("ty"))
                         key = ("int" if is_i32 else "parse?") if ((c[3] is True) or (isinstance(c[3], int) and not isinstance(c[3], bool) and "Ok" in c[2] and not c[2].startswith("!"))) else "text"
+                if key in table and table[key] != v:
+                    run.ob("R-PRINTGATE", "FromStr: one result per class of text (%s)" % key, False, "%s and %s on different paths" % (tshow(table[key]), tshow(v)), site(fb),
+                           key="R-PRINTGATE|FromStr|two-results|%s" % key)
                 table[key] = v
             exp = {"true": ("ctor", "ipp::value::IppValue::Boolean", [("lit", True)]), "false": ("ctor", "ipp::value::IppValue::Boolean", [("lit", False)])}
             for k, want in exp.items():
